@@ -59,13 +59,14 @@ impl<'a> barter::engine::Processor<&'a AccountEvent> for CountGlobal {
 pub type St = EngineState<CountGlobal, DefaultInstrumentMarketData>;
 
 /// Exchanges used by the simulators, in `ExchangeId` order (which is index order).
-/// Their names sort differently (binance_spot, bithumb, bitvavo, mock): nothing may confuse the two
-/// orders.
+/// Their names sort differently (bithumb < bitvavo, while Bitvavo comes first as an id): nothing may
+/// confuse the two orders. None of them is the id a client type falls back to (`Mock`, `Simulated`),
+/// so a response labelled with a constant instead of the request's exchange stays visible.
 pub const EXS: [ExchangeId; 4] = [
-    ExchangeId::Mock,
-    ExchangeId::BinanceSpot,
     ExchangeId::Bitvavo,
     ExchangeId::Bithumb,
+    ExchangeId::Kraken,
+    ExchangeId::Okx,
 ];
 
 thread_local! {
